@@ -11,6 +11,10 @@ open LoomVerif
 #print axioms Cell.read_panics_iff
 #print axioms Cell.write_panics_iff
 #print axioms Cell.busy
+#print axioms Cell.section_read_panics_iff
+#print axioms Cell.section_write_panics_iff
+#print axioms Cell.read_end_recorded
+#print axioms Cell.clocks_grow
 #print axioms Atomic.track_panics_iff
 #print axioms Atomic.track_ok_iff
 #print axioms Atomic.track_mutating
